@@ -16,6 +16,7 @@ import (
 	"github.com/spf13/afero"
 	"github.com/yandex/pandora/core"
 	"github.com/yandex/pandora/core/aggregator/netsample"
+	"github.com/yandex/pandora/core/coreutil"
 	"github.com/yandex/pandora/core/engine"
 	"github.com/yandex/pandora/core/schedule"
 	"github.com/yandex/pandora/lib/monitoring"
@@ -63,7 +64,8 @@ func (r *run) scenario(x *vs.X) func(end, msg string) error {
 	w := &World{T0: time.Now(), Items: c.Items, ShotDur: time.Duration(c.ShotMs) * time.Millisecond}
 	r.w = w
 	r.fs = afero.NewMemMapFs()
-	ph, err := netsample.NewPhout(r.fs, netsample.PhoutConfig{Destination: "phout.log", ID: true, SampleQueueSize: c.Queue, FlushTime: time.Second})
+	ph, err := netsample.NewPhout(r.fs, netsample.PhoutConfig{Destination: "phout.log", ID: true, SampleQueueSize: c.Queue, FlushTime: time.Second,
+		Buffer: coreutil.BufferSizeConfig{BufferSize: 4096}}) // a small buffer: abandoned executions leak it
 	if err != nil {
 		panic(err)
 	}
